@@ -81,6 +81,7 @@ pub struct ConnRec {
     pub released_step: Option<u64>,
     pub handoffs: u32,
     pub last_handoff_step: Option<u64>,
+    pub discard_judged: bool,
     pub live_handles: u32,
     pub dropped_step: Option<u64>,
     pub ready_waker: Option<Waker>,
@@ -136,6 +137,8 @@ pub struct ReqRec {
     /// instant at which the last operation before this request's issue finished (everything that can touch
     /// the pool's idle entries happened at or before it)
     pub prev_activity: Option<Instant>,
+    /// HTTP/1 connections handed back (and possibly put in this request's channel) since its last poll
+    pub offered_since_poll: Vec<usize>,
     pub state: ReqState,
     pub dial: Option<usize>,
     pub conn: Option<usize>,
@@ -601,6 +604,7 @@ impl Future for HsFuture {
                     released_step: None,
                     handoffs: 0,
                     last_handoff_step: None,
+                    discard_judged: false,
                     live_handles: 1,
                     dropped_step: None,
                     ready_waker: None,
